@@ -12,7 +12,12 @@ import threading
 class Sched:
     """Token-passing scheduler: exactly one registered thread runs between two yield points."""
 
-    def __init__(self, choices):
+    def __init__(self, choices, pause=None):
+        # pause = (tid, k): thread tid is suspended after its k-th yield point *inside tensora/compile/* (the modules that
+        # hold shared state) until every other thread has finished or is blocked - one long preemption at a chosen point,
+        # the schedule that exposes check-then-act sequences
+        self.pause = pause
+        self.compile_yields = {}
         self.cv = threading.Condition()
         self.current = None
         self.waiting = set()
@@ -25,6 +30,9 @@ class Sched:
 
     def _pick(self):
         ready = sorted(self.waiting)
+        if self.pause is not None and len(ready) > 1 and self.pause[0] in ready \
+                and self.compile_yields.get(self.pause[0], 0) >= self.pause[1]:
+            ready.remove(self.pause[0])
         if not ready:
             self.current = None
             return
@@ -39,8 +47,10 @@ class Sched:
             self.trace.append(nxt)
         self.cv.notify_all()
 
-    def yield_(self, tid):
+    def yield_(self, tid, in_compile=False):
         with self.cv:
+            if in_compile:
+                self.compile_yields[tid] = self.compile_yields.get(tid, 0) + 1
             self.progress += 1
             self.waiting.add(tid)
             if self.current == tid or self.current is None:
@@ -143,17 +153,35 @@ def main():
         bridge.clear_kernel_cache()
         return outs
 
-    def controlled(workload, choices, warm=False):
+    def fill_cache(n):
+        """n further distinct problems, so that what was cached before becomes the least recently used part of a full
+        kernel cache (functools.lru_cache keeps 128 entries by default): evictions happen during the concurrent phase."""
+        from tensora import Tensor
+
+        g = Tensor.from_dok({(0,): 1.0, (2,): 2.0}, dimensions=(3,), format="s")
+        for k in range(n):
+            evaluate_tensora(f"f(i) = g(i) * {k + 2}", "s", g=g)
+
+    def controlled(workload, choices, warm=False, full_cache=False, pause=None):
         bridge.clear_kernel_cache()
         if warm:
             # every kernel is compiled and cached beforehand: the concurrent calls share the cached objects
-            for call in workload:
+            # (with a full cache the last call stays unseen, so that it misses and evicts during the concurrent phase)
+            for call in (workload[:-1] if full_cache else workload):
                 safe_call(call)
-        s = Sched(choices)
+        if full_cache:
+            try:
+                have = bridge.kernel_cache_info().currsize
+            except Exception:  # noqa: BLE001 - a cache without cache_info(): assume one entry per warmed call
+                have = len(workload) - 1
+            fill_cache(max(0, 128 - have))
+        s = Sched(choices, tuple(pause) if pause else None)
         sched_ref["sched"] = s
         sched_ref["tids"] = {}
         CC.lock = CoopLock(sched_ref)
         results = [None] * len(workload)
+
+        compile_dir = os.path.dirname(P.__file__)
 
         def tracer(tid):
             def local(frame, event, arg):
@@ -161,8 +189,16 @@ def main():
                     s.yield_(tid)
                 return local
 
+            def local_compile(frame, event, arg):
+                if event == "line":
+                    s.yield_(tid, True)
+                return local_compile
+
             def glob(frame, event, arg):
-                if frame.f_code.co_filename.startswith(watch_dir):
+                fn = frame.f_code.co_filename
+                if fn.startswith(compile_dir):
+                    return local_compile
+                if fn.startswith(watch_dir):
                     return local
                 return None
 
@@ -223,12 +259,26 @@ def main():
         req = json.loads(line)
         try:
             if req["op"] == "controlled":
-                seq = sequential(req["workload"])
-                res, info = controlled(req["workload"], req["choices"], req.get("warm", False))
+                if req.get("concurrent_first"):
+                    # fresh process: the scheduled concurrent run is the first thing that ever happens in it
+                    res, info = controlled(req["workload"], req["choices"], False, False, req.get("pause"))
+                    seq = sequential(req["workload"])
+                else:
+                    seq = sequential(req["workload"])
+                    res, info = controlled(req["workload"], req["choices"], req.get("warm", False), req.get("full_cache", False),
+                                           req.get("pause"))
                 rep = {"sequential": seq, "concurrent": res, "info": info}
             elif req["op"] == "stress":
-                seq = sequential(req["workload"])
-                rep = {"sequential": seq, "rounds": stress(req["workload"], req["nthreads"], req["rounds"])}
+                if req.get("concurrent_first"):
+                    # a process that has never generated, compiled or run anything: the very first evaluations of the
+                    # process race each other (lazy one-time initialisation), the sequential reference comes afterwards
+                    rounds = stress(req["workload"], req["nthreads"], 1)
+                    seq = sequential(req["workload"])
+                    rounds += stress(req["workload"], req["nthreads"], max(0, req["rounds"] - 1))
+                    rep = {"sequential": seq, "rounds": rounds}
+                else:
+                    seq = sequential(req["workload"])
+                    rep = {"sequential": seq, "rounds": stress(req["workload"], req["nthreads"], req["rounds"])}
             else:
                 rep = {"error": "unknown op"}
         except Exception as e:  # noqa: BLE001
